@@ -263,8 +263,24 @@ def t_no_int_subclass():
     return 1
 
 
+def t_swallowed_exception_monitor():
+    run = core.Run()
+
+    def body(eng):
+        a = eng.fresh("a", 8)
+        try:
+            {}.get(SymBuf([a]))          # unhashable proxy: CPython raises TypeError
+        except Exception:                # ... which the code under proof might swallow
+            pass
+        return 0
+
+    explore(body, run=run)
+    assert run.undecided and "monitor" in run.undecided[0], "a swallowed proxy TypeError must make the unit undecided"
+    return 1
+
+
 TESTS = [t_proxy_differential, t_shims, t_exploration_exhaustive, t_refutation_and_vacuity,
-         t_memory_and_cut_log, t_no_int_subclass]
+         t_memory_and_cut_log, t_no_int_subclass, t_swallowed_exception_monitor]
 
 
 def main(quiet=False):
